@@ -6,7 +6,7 @@ V = os.path.abspath(os.path.join(os.path.dirname(__file__), ".."))
 NOTE = ("Trusted: Coq 8.16.1 kernel/coqc and vm_compute (no native_compute); no axioms (Print Assumptions of every property "
         "theorem is checked to be 'Closed under the global context' on every run; the one exception is Props/C03float.v, which uses Flocq over Coq's reals "
         "and depends on the standard library's ClassicalDedekindReals.sig_forall_dec, sig_not_dec, FunctionalExtensionality.functional_extensionality_dep and Classical_Prop.classic); the translators py2gallina.py (arithmetic kernel), py2gallina_cache.py (cache decisions), "
-        "py2gallina_revise.py (recursion of ReviseAnno over data frames: its table of pandas idioms), py2gallina_guards.py (refusal guards as boolean functions), py2gallina_reader.py (loading protocol of DensityData over symbolic file names), py2gallina_writers.py (writers of the intermediates as file-action lists), py2gallina_store.py (constructor of the density store over h5py's require_dataset), py2gallina_overlap.py (the loop that fills the overlap arrays, as an assignment log), py2gallina_merge.py (recogniser of MergeData's summation: parameter sets, slices, labels, the triple loop, as a density-array log), py2gallina_lookup.py (get_specific_slice, its verifications and index dictionaries over the label lists), py2gallina_jobs.py (the file names carried by the job and result tuples to the readers of the density stage) and py2gallina_cf.py (queue/event loops as interaction programs); the "
+        "py2gallina_revise.py (recursion of ReviseAnno over data frames: its table of pandas idioms), py2gallina_guards.py (refusal guards as boolean functions), py2gallina_reader.py (loading protocol of DensityData over symbolic file names), py2gallina_writers.py (writers of the intermediates as file-action lists), py2gallina_store.py (constructor of the density store over h5py's require_dataset), py2gallina_overlap.py (the loop that fills the overlap arrays, as an assignment log), py2gallina_merge.py (recogniser of MergeData's summation: parameter sets, slices, labels, the triple loop, as a density-array log), py2gallina_lookup.py (get_specific_slice, its verifications and index dictionaries over the label lists), py2gallina_jobs.py (the file names carried by the job and result tuples to the readers of the density stage), py2gallina_pair.py (DensityData._pair_by_chromosome statement by statement: dicts as association lists, sets as distinct elements, list(s)[0] as an oracle) and py2gallina_cf.py (queue/event loops as interaction programs); the "
         "correspondence harness (generators, drivers, abstraction, float rule); CPython/pandas/numpy/h5py. "
         "Modelled, not verified: int32/float32 narrowing, pandas/h5py semantics (tied by execution).")
 
@@ -112,9 +112,12 @@ CHECKS = {
              "Exhaustive constructor sequences (length <= 2 quick / 3 thorough) and first loads killed (fork + os._exit, with/without HDF5 flush) or interrupted by an exception at every step, followed by loads, on real files; two loads of different files of one directory interleaved at their start / copy / publish steps.",
         design="DESIGN.md 6 C15"),
     "C16": dict(
-        technique="Coq proof (pairing by stored chromosome id: sound, complete, rejects every mismatch; legacy sorted-name pairing refuted by computation) + name-set pools on real directories",
-        text="Theorems c16_paired/accepts/mismatch_is_error; chromosome-name pools around file-name sorting (prefix families, dots, punctuation, digits, case) -> real result directories -> both directory constructors, "
-             "recording which annotation each file received and what was served; tampered (mismatching) directories must be refused.",
+        technique="Coq proof (pairing by stored chromosome id: sound, complete, rejects every mismatch; legacy sorted-name pairing refuted by computation) + DensityData._pair_by_chromosome translated from /repo on every run, statement by statement, and proved equal to the pairing specification for all lists of files and gene annotations + name-set pools on real directories + unit differential of the translated function against the real one",
+        text="Theorems c16_paired/accepts/mismatch_is_error over the model; c16_code_is_spec / c16_code_paired / c16_code_mismatch_is_error / c16_code_accepts / c16_code_constructed about the code as translated from the current sources: "
+             "for every list of result files (each storing any list of chromosome identifiers: none, one, several, repeated) and every list of GeneData, the function returns one pair per file, in file order, of a file storing exactly one chromosome with the GeneData of that chromosome, "
+             "and refuses two GeneData of one chromosome and any file that stores no, several, or an unknown chromosome, wherever it stands in the list (the order in which Python iterates a set enters as an oracle of which only pick {x} = x is assumed); both directory constructors build the object of a pair from that pair's own two components. "
+             "Tie: the translated function against the real _pair_by_chromosome on generated lists (real HDF5 files with 0-3 stored identifiers, duplicated GeneData, unknown chromosomes at every position); chromosome-name pools around file-name sorting (prefix families, dots, punctuation, digits, case) -> real result directories -> both directory constructors, "
+             "recording which annotation each file received and what was served; tampered (mismatching) directories - also with all genes on the plus strand, so that no later step can refuse by accident, and with a result file storing two chromosomes - must be refused.",
         design="DESIGN.md 6 C16"),
     "C18": dict(
         technique="Coq proof (rejection for every row position and surrounding content; results only after all checks) + check_strand and _validate_split translated from /repo on every run and proved equal to the model's checks + malformed-input stream",
